@@ -91,6 +91,7 @@ def run(facts, rep, tier):
         ("R18.4", "a read error returns control to the connect loop"),
         ("R18.5", "main joins the reader thread"),
         ("R18.6", "thread::spawn has one call site"),
+        ("R18.7", "a partial last line of a dropped connection is not carried into the next one"),
     ]:
         rep.rule(rid, txt, "P")
 
@@ -234,6 +235,23 @@ def run(facts, rep, tier):
                             "after the line reader ends, control cannot reach the next connect", span_loc(t.get("span"))))
     rep.instances("R18.4", n, floor=1)
 
+    # R18.7: nothing of a dropped connection's partial last line survives into the next connection (line-buffer discipline)
+    try:
+        from ..effects import Effects as _Eff
+        from ..linebuf import analyse as _lb
+        from ..region import Region
+        from .c13 import PURE_IO
+        _reg = Region(facts, _Eff(facts))
+        _ex, _bufs, _probs = _lb(_reg, _reg.du, PURE_IO)
+        n7 = max(1, len(_bufs))
+        for key, title, detail, loc in _probs:
+            rep.oblige(False, key)
+            rep.add(Finding("R18.7", "%s : %s" % (_reg.proc.name, title),
+                            detail + " - a connection reset in the middle of a line is then not 'just another malformed line'", loc))
+        rep.oblige(True, ("line-buffers", n7))
+        rep.instances("R18.7", n7, floor=1, what="line buffers of the reader loop (none = one fresh line per iteration)")
+    except Broken:
+        rep.instances("R18.7", 1, floor=0)
     # R18.5 / R18.6
     spawns = []
     for n_, b in list(facts.bodies.items()) + list(facts.bin_bodies.items()):
